@@ -93,6 +93,12 @@ Definition ordered_after (l b : list rec) : bool :=
 Definition fresh_in (l b : list rec) : bool :=
   forallb (fun r => negb (memb r l)) b && nodupb b.
 
+(** the part of h before the first Shutdown call (all of h if there is none) *)
+Fixpoint before_shut (h : history) : history :=
+  match h with [] => [] | e :: r => if is_shut_call e then [] else e :: before_shut r end.
+(** every record of b comes after the records of the same goroutine in l *)
+Definition all_before (l b : list rec) : bool := forallb (fun a => forallb (before_ok a) b) l.
+
 (** ** The property, clause by clause, as a check of one event against its prefix *)
 
 (** Guards (forced hypotheses, see Properties.v): with a guard switched on, the clause
@@ -120,16 +126,33 @@ Definition begin_ok (g : guards) (c : config) (pre : history) (b : list rec) : b
   && negb (open_export pre)                             (* Export never runs twice at once *)
   && forallb (fun r => memb r (emitted pre)) b          (* an emitted record, content as at Emit *)
   && fresh_in (exported pre) b                          (* at most once *)
-  && (if ordered_after (exported pre) b then true else g_overlap g && overlap pre)  (* emission order *)
+  && (if ordered_after (exported pre) b then true       (* emission order; when a ForceFlush *)
+      else g_overlap g && overlap pre                    (* overlapped a Shutdown (F-C06-2): still *)
+           && all_before (exported (before_shut pre)) b) (* after everything exported before Shutdown was called *)
   && negb (shut_returned g pre).                        (* nothing after Shutdown returned nil *)
+
+(** When an Export call has failed, chunkExporter abandons the rest of that payload
+    (F-C06-3), so the clause above is false of the code.  What the code does guarantee:
+    a failed call loses at most the rest of ONE payload, i.e. at most qcap - maxb records
+    (a payload is at most one queue; the failed chunk itself was a full batch).  So the
+    records emitted before the call and neither handed over nor excused are at most
+    (#failed Export calls) * (qcap - maxb). *)
+Fixpoint dedup (l : list rec) : list rec :=
+  match l with [] => [] | x :: r => if memb x r then dedup r else x :: dedup r end.
+Definition fails (h : history) : nat := length (filter is_fail h).
+Definition missing (c : config) (pre : history) (t : nat) : list rec :=
+  filter (fun r => negb (memb r (exported pre)) && negb (excused c pre r))
+         (dedup (emit_rets (before_call t pre))).
+Definition visible_upto (c : config) (pre : history) (t : nat) : bool :=
+  length (missing c pre t) <=? fails pre * (qcap c - maxb c).
 
 Definition flush_ok (g : guards) (c : config) (pre : history) (t : nat) : bool :=
   if g_shut g && (1 <=? shut_calls pre) then true
-  else if g_fail g && has_fail pre then true
+  else if g_fail g && has_fail pre then visible_upto c pre t
   else visible c pre t.
 Definition shut_ok (g : guards) (c : config) (pre : history) (t : nat) : bool :=
   if g_shut g && (2 <=? shut_calls pre) then true
-  else if g_fail g && has_fail pre then true
+  else if g_fail g && has_fail pre then visible_upto c pre t
   else visible c pre t.
 
 Definition ev_ok (g : guards) (c : config) (pre : history) (e : event) : bool :=
